@@ -945,3 +945,40 @@ fn sync_twin_must_fail() {
     assert!(got && !got, "VACUITY-TWIN: reached the end of the sync harness");
     std::mem::forget(st);
 }
+
+// ================================================================================================
+// EvictionCounters arithmetic: saturating for every value (weights of a shared EntryInfo may have
+// been raised by a still queued update above what was ever added to the total).
+// ================================================================================================
+#[kani::proof]
+fn s_eviction_counters_never_overflow() {
+    let (ec, ws): (u64, u64) = (kani::any(), kani::any());
+    let w: u32 = kani::any();
+    let n: u64 = kani::any();
+    kani::assume(n <= 1 && ec >= n && ec < u64::MAX);
+    let mut c = EvictionCounters::new(ec, ws);
+    c.saturating_sub(n, w);
+    assert!(c.entry_count == ec - n && c.weighted_size == ws.saturating_sub(w as u64), "C10,C08: EvictionCounters::saturating_sub must saturate, never wrap or panic");
+    let mut c = EvictionCounters::new(ec, ws);
+    c.saturating_add(n, w);
+    assert!(c.entry_count == ec + n && c.weighted_size == ws.saturating_add(w as u64), "C10,C08: EvictionCounters::saturating_add must saturate, never wrap or panic");
+    kani::cover!(ws < w as u64, "weight larger than the total");
+}
+
+/// harness constructor used by sync::cache's child module
+pub(crate) fn mk_state(cfg: &SCfg) -> SSt { sbuild(cfg) }
+pub(crate) const fn mk_cfg(n: usize, cap: Option<u64>, ttl: bool, tti: bool, va: bool, tc: usize) -> SCfg {
+    SCfg { n, cap, weigher: false, wt: W1, ttl, tti, va, tc }
+}
+/// (a pending, not yet admitted entry for key `k`: what insert leaves before maintenance)
+pub(crate) fn add_pending(st: &SSt, k: u8) -> Ent {
+    let (op, _) = st.b.do_insert_with_hash(Arc::new(k), IdH::h(k), Val { cls: 0, data: k });
+    match op {
+        WriteOp::Upsert { value_entry, .. } => { let e = TrioArc::clone(&value_entry); assert!(st.b.write_op_ch.try_send(WriteOp::Upsert { key_hash: KeyHash::new(Arc::new(k), IdH::h(k)), value_entry, old_weight: 0, new_weight: 1 }).is_ok()); e }
+        _ => unreachable!(),
+    }
+}
+pub(crate) fn base_of(st: SSt) -> Bc { let SSt { b, g: _, ent, key } = st; std::mem::forget(ent); std::mem::forget(key); b }
+impl In {
+    pub(crate) fn verif_recv_write(&self) -> Option<WriteOp<u8, Val>> { self.write_op_ch.try_recv().ok() }
+}
